@@ -88,7 +88,13 @@ def dynamic_param_lookup(function_value, param_index):
     debug.dbg('Dynamic param search in %s.', string_name, color='MAGENTA')
 
     module_context = function_value.get_root_context()
-    arguments_list = _search_function_arguments(module_context, funcdef, string_name)
+    arguments_list = _search_function_arguments(
+        module_context, funcdef, string_name,
+        # The search looks at fewer call sites the deeper it is nested. The
+        # depth is part of the memoize key, otherwise a truncated result of
+        # a nested search is served to a later, less deeply nested one.
+        function_value.inference_state.dynamic_params_depth,
+    )
     values = ValueSet.from_sets(
         get_executed_param_names(
             function_value, arguments
@@ -101,7 +107,7 @@ def dynamic_param_lookup(function_value, param_index):
 
 @inference_state_method_cache(default=None)
 @to_list
-def _search_function_arguments(module_context, funcdef, string_name):
+def _search_function_arguments(module_context, funcdef, string_name, depth):
     """
     Returns a list of param names.
     """
@@ -132,7 +138,7 @@ def _search_function_arguments(module_context, funcdef, string_name):
             # This is a simple way to stop Jedi's dynamic param recursion
             # from going wild: The deeper Jedi's in the recursion, the less
             # code should be inferred.
-            if i * inference_state.dynamic_params_depth > MAX_PARAM_SEARCHES:
+            if i * depth > MAX_PARAM_SEARCHES:
                 return
 
             random_context = for_mod_context.create_context(name)
